@@ -56,9 +56,9 @@ Inductive cresult := CRNone | CRCreated (id : N) | CRExists | CRFailed | CRDelet
 Definition with_pc (s : cst) (m : nat) (p : cpc) : cst :=
   {| c_seq := c_seq s; c_tabs := c_tabs s; c_next := c_next s; c_pcs := set_pc (c_pcs s) m p; c_created := c_created s |}.
 
-(* LFSM.Update: the version is compared only when the key exists *)
-Definition cas_seq (s : cst) (ver : N) : bool := match c_seq s with Some (_, w) => w =? ver | None => true end.
-Definition cas_tab (s : cst) (name ver : N) : bool := match tget (c_tabs s) name with Some (_, w) => w =? ver | None => true end.
+(* LFSM.Update: the supplied version must be the key's current one; a key that does not exist has version 0 *)
+Definition cas_seq (s : cst) (ver : N) : bool := match c_seq s with Some (_, w) => w =? ver | None => ver =? 0 end.
+Definition cas_tab (s : cst) (name ver : N) : bool := match tget (c_tabs s) name with Some (_, w) => w =? ver | None => ver =? 0 end.
 
 Definition cexec (s : cst) (a : caction) : cst * cresult :=
   match a with
